@@ -30,7 +30,9 @@ CONSTANTS Dims,        \* axis sizes, {1, 2, 3}
           NPts, MPts,  \* rows of x1 / x2 used by the replay (4, 3)
           DFeat,       \* feature dimension (2)
           NCo,         \* a number of rows that coincides with an axis size of Dims (3)
-          CheckSites   \* the sites whose alignment this run asserts
+          CheckSites,  \* the sites whose alignment this run asserts
+          Repaired     \* subset of {"rq_alpha", "const_kernel", "call_diag", "multitask"}: transcribe the repaired arithmetic of
+                       \* that site family instead of the arithmetic of the pinned commit (see checks/c08.py REPAIRED)
 
 VARIABLE c
 
@@ -64,12 +66,13 @@ Site(name, P, D1, D2) ==
             [par |-> P \o <<1>>, with |-> B1 \o <<NPts>>, op |-> "bc", exp |-> B1 \o <<NPts>>, nt |-> 1]
        [] name = "rq_alpha_full" ->         \* RQKernel.forward: alpha has shape batch + (1,);
                                             \* for _ in range(1, len(dist_mat.shape) - len(self.batch_shape)): alpha = alpha.unsqueeze(-1)
+                                            \* repaired: alpha.unsqueeze(-1) unless diag
             LET dist == Out \o <<NPts, MPts>>
-                cnt  == ShMax(Len(dist) - np - 1, 0)
+                cnt  == IF "rq_alpha" \in Repaired THEN 1 ELSE ShMax(Len(dist) - np - 1, 0)
             IN [par |-> P \o <<1>> \o ShOnes(cnt), with |-> dist, op |-> "bc", exp |-> dist, nt |-> 2]
        [] name = "rq_alpha_diag" ->
             LET dist == B1 \o <<NPts>>
-                cnt  == ShMax(Len(dist) - np - 1, 0)
+                cnt  == IF "rq_alpha" \in Repaired THEN 0 ELSE ShMax(Len(dist) - np - 1, 0)
             IN [par |-> P \o <<1>> \o ShOnes(cnt), with |-> dist, op |-> "bc", exp |-> dist, nt |-> 1]
        [] name = "constant_mean" ->         \* ConstantMean.forward: constant.unsqueeze(-1).expand(broadcast_shapes(constant.shape, input.shape[:-1]))
             [par |-> P \o <<1>>, with |-> D1 \o <<NPts>>, op |-> "bc", exp |-> B1 \o <<NPts>>, nt |-> 1]
@@ -82,9 +85,12 @@ Site(name, P, D1, D2) ==
             [par |-> P \o <<1, 1>>, with |-> B1 \o <<1, 1>>, op |-> "expand", exp |-> B1 \o <<1, 1>>, nt |-> 2]
        [] name = "const_kernel_full" ->     \* ConstantKernel.forward: batch_shape = broadcast_shapes(x1.shape[:-2], x2.shape[:-2]);
                                             \*   constant (batch + (1,)).unsqueeze(-1).expand(batch_shape + (n, m))
-            [par |-> P \o <<1, 1>>, with |-> DD \o <<NPts, MPts>>, op |-> "expand", exp |-> Out \o <<NPts, MPts>>, nt |-> 2]
+                                            \* repaired: ... .expand(broadcast_shapes(constant.shape, batch_shape + (n, m)))
+            [par |-> P \o <<1, 1>>, with |-> DD \o <<NPts, MPts>>, op |-> IF "const_kernel" \in Repaired THEN "bc" ELSE "expand",
+             exp |-> Out \o <<NPts, MPts>>, nt |-> 2]
        [] name = "const_kernel_diag" ->
-            [par |-> P \o <<1>>, with |-> D1 \o <<NPts>>, op |-> "expand", exp |-> B1 \o <<NPts>>, nt |-> 1]
+            [par |-> P \o <<1>>, with |-> D1 \o <<NPts>>, op |-> IF "const_kernel" \in Repaired THEN "bc" ELSE "expand",
+             exp |-> B1 \o <<NPts>>, nt |-> 1]
        [] name = "var_inducing_values" ->   \* _VariationalStrategy._expand_inputs: broadcast_shapes(inducing batch, x batch);
                                             \* VariationalStrategy.forward: interp_term^T @ inducing_values (batch + (m,)).unsqueeze(-1)
             [par |-> P, with |-> ShBc2(D2, D1), op |-> "bc", exp |-> Out, nt |-> 0]
@@ -105,7 +111,8 @@ AlignOutcome(st, P) ==
 CallDiagOutcome(P, D1, n) ==
   LET res  == ShBc2(P, D1) \o <<n>>
       x1   == D1 \o <<n, DFeat>>
-      eats == Len(res) = Len(x1) /\ Len(res) >= 2 /\ SubSeq(res, Len(res) - 1, Len(res)) = <<n, n>>
+      full == IF "call_diag" \in Repaired THEN Len(ShBc2(P, D1)) + 2 ELSE Len(x1)     \* repaired: rank of the broadcast batch + 2
+      eats == Len(res) = full /\ Len(res) >= 2 /\ SubSeq(res, Len(res) - 1, Len(res)) = <<n, n>>
       fin  == IF eats THEN SubSeq(res, 1, Len(res) - 2) \o <<n>> ELSE res
   IN IF fin = ShBc2(P, D1) \o <<n>> THEN "ok" ELSE "shape"
 
@@ -117,7 +124,7 @@ MultitaskOutcome(P, D1, D2) ==
       r   == ShMax(Len(P), Len(D1))
       \* BatchRepeatLinearOperator: the base operator gets leading axes when it has fewer batch axes than the repeat; its size is
       \* zip(base batch, repeat) - left aligned and cut to the shorter one
-      rep == IF D1 = <<>> THEN P
+      rep == IF D1 = <<>> \/ "multitask" \in Repaired THEN P        \* repaired: no repeat, the Kronecker product broadcasts
              ELSE IF Len(D1) >= Len(P) THEN [j \in 1..r |-> ShRDim(P, r - j + 1) * ShRDim(D1, r - j + 1)]
              ELSE [j \in 1..Len(D1) |-> P[j] * D1[j]]
       B   == ShBc2(Out, rep)
@@ -127,7 +134,8 @@ MultitaskOutcome(P, D1, D2) ==
 CallDiagIgnoredOutcome(P, D1, n) ==
   LET res  == ShBc2(P, D1) \o <<n, n>>
       x1   == D1 \o <<n, DFeat>>
-      eats == Len(res) = Len(x1) /\ SubSeq(res, Len(res) - 1, Len(res)) = <<n, n>>
+      full == IF "call_diag" \in Repaired THEN Len(ShBc2(P, D1)) + 2 ELSE Len(x1)
+      eats == Len(res) = full /\ SubSeq(res, Len(res) - 1, Len(res)) = <<n, n>>
       fin  == IF eats THEN SubSeq(res, 1, Len(res) - 2) \o <<n>> ELSE res
   IN IF fin = ShBc2(P, D1) \o <<n>> THEN "ok" ELSE "shape"
 
